@@ -40,9 +40,23 @@ Fixpoint assoc_path (p : path) (m : fsmap) : option obj :=
   | (q, o) :: m' => if path_eqb p q then o else assoc_path p m'
   end.
 
-(** the object at canonical path p *)
-Definition look (fs : fsys) (p : path) : option obj :=
-  match p with [] => Some DirO | _ => assoc_path p (objs fs) end.
+(** the object at canonical path p: the binding of p, provided every proper
+    prefix of p is bound to a directory (what lies under a removed or
+    replaced directory is not reachable) *)
+Definition raw_look (m : fsmap) (p : path) : option obj :=
+  match p with [] => Some DirO | _ => assoc_path p m end.
+
+Fixpoint look_from (m : fsmap) (cur rest : path) : option obj :=
+  match rest with
+  | [] => raw_look m cur
+  | c :: rest' =>
+    match raw_look m cur with
+    | Some DirO => look_from m (cur ++ [c]) rest'
+    | _ => None
+    end
+  end.
+
+Definition look (fs : fsys) (p : path) : option obj := look_from (objs fs) [] p.
 
 Definition set_obj (fs : fsys) (p : path) (o : option obj) : fsys :=
   {| objs := (p, o) :: objs fs; store := store fs; next_ino := next_ino fs |}.
@@ -64,6 +78,13 @@ Fixpoint is_prefix (a b : path) : bool :=
   end.
 
 Definition parent (p : path) : path := removelast p.
+
+Definition strict_prefix (a b : path) : bool := is_prefix a b && negb (path_eqb a b).
+
+(** a new, empty directory at k: stale bindings below k are dropped *)
+Definition mkdir_at (fs : fsys) (k : path) : fsys :=
+  {| objs := (k, Some DirO) :: filter (fun e => negb (strict_prefix k (fst e))) (objs fs);
+     store := store fs; next_ino := next_ino fs |}.
 
 (** paths bound in the map (live or not), without duplicates handled by callers *)
 Definition keys (fs : fsys) : list path := map fst (objs fs).
@@ -160,7 +181,7 @@ Definition sys_lstat (fs : fsys) (p : list comp) : option obj + errno :=
 (** mkdir(2): does not follow a final link *)
 Definition sys_mkdir (fs : fsys) (p : list comp) : sysres :=
   match resolve fs p false with
-  | WMissing d c => (set_obj fs (d ++ [c]) (Some DirO), None)
+  | WMissing d c => (mkdir_at fs (d ++ [c]), None)
   | WDone _ => (fs, Some EEXIST)
   | WErr e => (fs, Some e)
   | WExpand _ _ => (fs, Some ELOOP)
